@@ -19,7 +19,11 @@ def run(c, replay):
                              extra_cfgs=[(2, 1, 10), (3, 1, 50), (4, 2, 100), (8, 1, 20)], long_every=1)
     lpruns = C.lp_campaign(c, ctx, r, 12 if c.tier == "quick" else 200, S.mask("ROLLBACK", "FOSSIL", "COMMIT"))
     c.cov.update(C.worker_report(c, lpruns))
-    runs = runs + lpruns
+    # two ranks: history entries of messages sent to another rank (the sender keeps its copy for the anti-message) across fossil collections
+    # at short GVT periods, with rollbacks afterwards; traces of multi-rank runs are per rank and not merged here: digests and sanitizers decide
+    progs2, runs2 = C.campaign(c, ctx, r, 4 if c.tier == "quick" else 40, 0, c.tier, variants=("pred",), ranks_list=(2,), jobs=3, use_corpus=False, long_every=0,
+                               only_cfgs=[(2, 3, 100), (1, 2, 50), (2, 5, 20)], nets=(None, "300,8000,10,%d" % (c.seed + 41), "100,3000,3,%d" % (c.seed + 42)))
+    runs = runs + lpruns + runs2
     fos = rb_after = okr = 0
     for run_ in runs:
         res, pr = run_["res"], run_["prog"]
